@@ -574,8 +574,9 @@ func runRace(c *rt.Ctx) {
 	// land next to ours and are counted by ./check; their output mismatches are re-reported here).
 	children, extraCold := 0, 0
 	if !child {
-		children = c.Pick(1, 9)
-		detect := c.Pick(4, 10)
+		// quick: the parent is the only process that also compares outputs; five detector-only cold starts
+		children = c.Pick(0, 9)
+		detect := c.Pick(5, 10)
 		extraCold = detect
 		for i := 0; i < children+detect; i++ {
 			mode := "1"
